@@ -67,14 +67,21 @@ structure Fact where
   adv : Nat
   lsb : Int
   glyph : Glyph
+  /-- `false` (a trailing `!` in the request): the strict reading of the ORIGINAL font differs from
+      the loca-trusting reading the subsetter's reader performs (and the model is fed with) — glyph
+      id ≥ numGlyphs, entry beyond the glyf/hmtx table, … : the font is damaged there and the
+      oracle is silent about that glyph -/
+  strict : Bool := true
 
 def parseFacts (s : String) : Option (List Fact) :=
   if s = "-" then some []
   else (s.splitOn ";").mapM fun t =>
     match t.splitOn ":" with
     | [g, a, l, d] =>
+      let flagged := d.endsWith "!"
+      let d := if flagged then (d.dropEnd 1).toString else d
       match g.toNat?, a.toNat?, l.toInt?, parseDesc d with
-      | some g, some a, some l, some d => some ⟨g, a, l, d⟩
+      | some g, some a, some l, some d => some ⟨g, a, l, d, !flagged⟩
       | _, _, _, _ => none
     | _ => none
 
@@ -87,6 +94,16 @@ def mkFont (facts : List Fact) (cmap : List (Nat × Nat)) : Font :=
     adv := fun g => match lookupFact facts g with | some f => f.adv | none => 0
     lsb := fun g => match lookupFact facts g with | some f => f.lsb | none => 0
     cmap := lookupPair cmap }
+
+/-- the ORIGINAL font as the strict reader sees it (spec side): damaged glyphs are `bad`, so that
+    `flatten` is `none` for them and for every composite that reaches one -/
+def strictFont (f : Font) (facts : List Fact) : Font :=
+  { f with glyph := fun g => match lookupFact facts g with
+      | some x => if x.strict then x.glyph else .bad
+      | none => .bad }
+
+def isStrict (facts : List Fact) (g : Nat) : Bool :=
+  match lookupFact facts g with | some x => x.strict | none => false
 
 def sortPairs (ps : List (Nat × Nat)) : List (Nat × Nat) :=
   ps.mergeSort fun a b => decide (a.1 ≤ b.1)
@@ -193,7 +210,10 @@ def handleTT (fs : List String) (impl : String) : String × String :=
       | .subset m rows => s!"kind=subset map={showPairs m} n={rows.length} wf={wfEcho} g={showRows rows}"
       | .cff => "kind=cff"
       | .stuck => "model-stuck"
-    let mapped := used.filterMap fun c => (f.cmap c).map fun g => (c, g)
+    -- spec side: the characters the font maps to a glyph it HAS (a cmap entry beyond
+    -- numGlyphs is damage the property does not speak about)
+    let mapped := used.filterMap fun c => (f.cmap c).bind fun g => if g < ng then some (c, g) else none
+    let fs := strictFont f facts
     let fuel := facts.length + 2
     let oracle :=
       match pi with
@@ -208,7 +228,7 @@ def handleTT (fs : List String) (impl : String) : String × String :=
         match firstSome mapped fun (c, g) =>
             match lookupPair m c with
             | none => some s!"fail:requested-char-dropped:U+{c}"
-            | some g' => glyphVerdict f fuel rows g g' with
+            | some g' => if isStrict facts g then glyphVerdict fs fuel rows g g' else none with
         | some e => e
         | none => if n ≠ rows.length then "fail:numGlyphs-mismatch" else wfVerdict wf
     (model, refine odd oracle)
@@ -228,7 +248,8 @@ def handleTG (fs : List String) (impl : String) : String × String :=
       | .subset m rows => s!"kind=subset map={showPairs m} n={rows.length} wf={wfEcho} g={showRows rows}"
       | .stuck => "model-stuck"
     let fuel := facts.length + 2
-    let damaged := facts.any fun x => x.glyph == .bad
+    let damaged := facts.any fun x => x.glyph == .bad || !x.strict
+    let fs := strictFont f facts
     let oracle :=
       match pi with
       | .unparsable => "fail:unparsable-impl-answer"
@@ -238,7 +259,7 @@ def handleTG (fs : List String) (impl : String) : String × String :=
         match firstSome used fun g =>
             match lookupPair m g with
             | none => some s!"fail:requested-glyph-dropped:{g}"
-            | some g' => glyphVerdict f fuel rows g g' with
+            | some g' => if isStrict facts g then glyphVerdict fs fuel rows g g' else none with
         | some e => e
         | none => if n ≠ rows.length then "fail:numGlyphs-mismatch" else wfVerdict wf
     (model, refine odd oracle)
